@@ -213,7 +213,30 @@ def c16_shapes(tier):
         return [(0, 1, 2), (1, 1, 2), (2, 1, 2), (0, 1, 1)]
     return [(0, 2, 2), (1, 2, 2), (2, 1, 2), (0, 2, 1), (1, 2, 1), (2, 1, 1)]
 
+def c20_shapes(tier):
+    # (requests, isolation threshold, fallback, role, drop-first-future)
+    if tier == 'quick':
+        return [(3, 1, 0, 0, 0), (3, 2, 1, 1, 0), (2, 1, 1, 0, 1), (2, 2, 0, 1, 1)]
+    out = []
+    for thr in (1, 2):
+        for fb in (0, 1):
+            for role in (0, 1):
+                out.append((4, thr, fb, role, 0))
+    out += [(3, 1, 0, 0, 1), (3, 2, 1, 1, 1)]
+    return out
+
 PROPS = {
+    'C20': {
+        'level': 'model_checking',
+        'bounds': 'SentinelService<Inner, u8> of /repo/middleware/tower (non-http impl) around a harness service whose call outcome is symbolic per request in {ready Ok, ready Err, pending-then-Ok, pending-then-Err}; '
+                  'sequences of 2-3 (quick) / 4 requests, one of which may be kept pending (in flight) while the following ones run; isolation rule with threshold 1-2; with/without fallback; server/client role; '
+                  'futures polled with a no-op waker; a future dropped after its first poll is explored and observed (in-flight count afterwards), not asserted',
+        'assumptions': ['the async block of the middleware is executed from its coroutine MIR; Box<dyn Error> payloads are opaque', 'the http feature impl and the tonic middleware are not covered'],
+        'scenarios': [
+            {'name': 'c20_tower', 'shapes': {'quick': c20_shapes('quick'), 'thorough': c20_shapes('thorough')},
+             'witnesses': ['admitted', 'rejected', 'inner-error', 'held', 'dropped'], 'selftest': {'quick': 8, 'thorough': 40}},
+        ],
+    },
     'C15': {
         'level': 'model_checking',
         'bounds': 'two threads, each one manager operation of the same family out of {load-all {A1}, load-all {A1,A2,B1}, load-for-resource r1 {A2}, append A2, clear, clear-resource r1, get_rules, get_rules_of_resource, build+exit an entry on r1} '
